@@ -985,7 +985,10 @@ impl FseEncoder {
     
     /// Parallel compression for large data (real implementation)
     fn compress_parallel(&mut self, data: &[u8], num_blocks: usize) -> Result<Vec<u8>> {
-        let block_size = self.config.block_size;
+        // FseDecoder::decompress recognises a block container by a block count of 2..=64: never produce more
+        // (one thread is spawned per block, too).  Larger inputs get proportionally larger blocks.
+        const MAX_BLOCKS: usize = 64;
+        let block_size = self.config.block_size.max(1).max((data.len() + MAX_BLOCKS - 1) / MAX_BLOCKS);
         let chunks: Vec<&[u8]> = data.chunks(block_size).collect();
         
         // If we don't have enough chunks for parallelization, fall back to single-threaded
